@@ -5,7 +5,7 @@ OUT=${1:-/verif/scratch/seeded_verify.txt}
 WT=/tmp/wtv2
 git -C /repo worktree remove --force $WT 2>/dev/null
 git -C /repo worktree add -f --detach $WT HEAD >/dev/null 2>&1
-for d in /verif/seeded/*/; do
+for d in /verif/seeded/${2:-}*/; do
   id=$(basename $d)
   cd $WT && git checkout -q -- . && git clean -fdq
   cp $d/demo.py $WT/demo.py
